@@ -8,11 +8,20 @@ package receiver
 
 // ---------------------------------------------------------------- file list
 
+// ---------------------------------------------------------------- C09: --delete
+// The file list is sorted by name (non-decreasing); membership is decided
+// by binary search.
+//@ spec func sortedByName(l: []*receiver.File): bool = forall i, j :: 0 <= i && i < j && j < len(l) ==> !strlt(l[j].Name, l[i].Name)
+//@ spec func inList(l: []*receiver.File, name: Str): bool = exists i :: 0 <= i && i < len(l) && l[i].Name == name
+
 //@ func receiver.findInFileList
 //@   pure
+//@   requires [sorted] sortedByName(fileList)
+//@   ensures[C09] [membership] result <==> inList(fileList, name)
 
 //@ func receiver.sortFileList
 //@   modifies E:*receiver.File
+//@   ensures[C09] [sorted] sortedByName(fileList)
 
 // FileMode maps the protocol's S_IF* type bits to Go's fs.Mode* bits and
 // keeps the nine permission bits (C11, C12).
